@@ -45,9 +45,14 @@ def gen_tld_expect():
     return rows
 
 
+C11_STATS = {}
+
+
 def c11_pre(tier):
     res = []
     rows = gen_tld_expect()
+    C11_STATS.clear()
+    C11_STATS.update({'programs': 3, 'csv_rows': len(rows), 'lines_compared': 0})
     names = [d for d, _ in rows]
     dup = sorted(set(n for n in names if names.count(n) > 1)) if len(set(names)) != len(names) else []
     res.append(('csv-no-duplicate-domain', not dup, 'duplicates: %s' % dup[:5] if dup else '%d rows, all distinct' % len(rows)))
@@ -81,6 +86,7 @@ def c11_pre(tier):
                 b = open(os.path.join(core.REPO, shipped), encoding='utf-8').read().splitlines()
                 if skip_first:
                     a, b = a[1:], b[1:]
+                C11_STATS['lines_compared'] += max(len(a), len(b))
                 if a == b:
                     return True, '%d lines identical' % len(a)
                 for i, (x, y) in enumerate(zip(a, b)):
